@@ -223,6 +223,26 @@ type FootnoteManager struct {
 	endnotes       map[string]*Endnote
 }
 
+// clone 复制脚注管理器（计数器和注册表；已注册的脚注/尾注创建后不再修改，可以共享）
+func (m *FootnoteManager) clone() *FootnoteManager {
+	if m == nil {
+		return nil
+	}
+	c := &FootnoteManager{
+		nextFootnoteID: m.nextFootnoteID,
+		nextEndnoteID:  m.nextEndnoteID,
+		footnotes:      make(map[string]*Footnote, len(m.footnotes)),
+		endnotes:       make(map[string]*Endnote, len(m.endnotes)),
+	}
+	for k, v := range m.footnotes {
+		c.footnotes[k] = v
+	}
+	for k, v := range m.endnotes {
+		c.endnotes[k] = v
+	}
+	return c
+}
+
 // getFootnoteManager 获取当前文档的脚注管理器（每个文档拥有自己的管理器，
 // 这样一个文档的脚注/尾注及其编号不会出现在其他文档中）
 func (d *Document) getFootnoteManager() *FootnoteManager {
